@@ -136,3 +136,54 @@ Proof.
   replace (feed c bs) with (set_spool c bs) in H by (unfold feed; rewrite Hsp; reflexivity).
   rewrite process_messages_spool in H. destruct (process_messages c ms) as [c2 o2]. exact H.
 Qed.
+
+(* ---------------------------------------------------------------- unknown critical option in a CSM: Abort with Bad-CSM-Option *)
+Lemma to_minimum_bytes_short n : 0 <= n < 2 ^ 64 -> blen (to_minimum_bytes n) <= 8.
+Proof.
+  intros Hn. unfold to_minimum_bytes, blen. rewrite to_bytes_big_n_length.
+  assert (Hb : 0 <= bit_length n <= 64).
+  { unfold bit_length. destruct (n <=? 0) eqn:E; [lia|].
+    assert (Z.log2 n < 64) by (apply Z.log2_lt_pow2; lia). pose proof (Z.log2_nonneg n). lia. }
+  rewrite Z2Nat.id by lia. lia.
+Qed.
+
+Lemma serialize_abort_bad n : 0 <= n < 2 ^ 64 ->
+  exists b, serialize (abort_msg txt_option_not_supported (Some n)) = Ok b.
+Proof.
+  intros Hn. pose proof (to_minimum_bytes_short n Hn) as Hv. pose proof (blen_nonneg (to_minimum_bytes n)) as Hv0.
+  unfold serialize, abort_msg. cbn [opts payload token code].
+  unfold options_encode. cbn [options_encode_from].
+  change (write_extended_field_value (2 - 0)) with (Ok (2, @nil Z)). cbn [bind].
+  unfold write_extended_field_value at 1.
+  assert (E : (blen (to_minimum_bytes n) >=? 0) && (blen (to_minimum_bytes n) <? 13) = true) by lia. rewrite E. cbn [bind].
+  set (od := [Z.shiftl (Z.land 2 15) 4 + Z.land (blen (to_minimum_bytes n)) 15] ++ [] ++ [] ++ to_minimum_bytes n ++ []).
+  change (match txt_option_not_supported with [] => [] | _ :: _ => 255 :: txt_option_not_supported end) with (255 :: txt_option_not_supported).
+  set (data := od ++ 255 :: txt_option_not_supported).
+  assert (Hd : 0 <= blen data < 65805 + 2 ^ 32).
+  { unfold data, od, blen in *. cbn [app]. rewrite app_nil_r. cbn [length]. rewrite app_length. cbn [length].
+    change (length txt_option_not_supported) with 20%nat. change (2 ^ 32) with 4294967296. lia. }
+  rewrite encode_length_rfc8323 by exact Hd. cbn [bind]. destruct (rfc8323_len (blen data)) as [len ext].
+  change (blen (@nil Z) >? 8) with false. cbv iota. eexists. reflexivity.
+Qed.
+
+Lemma csm_critical_aborts : forall os c st n v, In (n, v) os -> is_critical n = true ->
+  (forall n' v', In (n', v') os -> 0 <= n' < 2 ^ 64) ->
+  exists pre post b n1, snd (fst (process_csm_options c st os)) = pre ++ Write b :: Close :: post /\
+    is_critical n1 = true /\ serialize (abort_msg txt_option_not_supported (Some n1)) = Ok b.
+Proof.
+  induction os as [|[n0 v0] r IH]; intros c st n v Hin Hcrit Hb; [destruct Hin|].
+  assert (Hcn : forall k, is_critical k = true -> (k =? 2) = false /\ (k =? 4) = false).
+  { intros k Hk. unfold is_critical in Hk. split; destruct (Z.eqb_spec k 2), (Z.eqb_spec k 4); subst; try reflexivity; discriminate. }
+  cbn [process_csm_options].
+  destruct (is_critical n0) eqn:Hc0.
+  - destruct (Hcn n0 Hc0) as [-> ->].
+    destruct (serialize_abort_bad n0 (Hb n0 v0 (or_introl eq_refl))) as [b Hser].
+    unfold abort. rewrite Hser.
+    destruct (process_csm_options (set_closed c) st r) as [[[c2 s2] o2] ok2]. cbn [fst snd].
+    exists [], o2, b, n0. repeat split; auto.
+  - assert (Hin' : In (n, v) r) by (destruct Hin as [Heq|Hin]; [inv Heq; congruence|exact Hin]).
+    assert (Hb' : forall n' v', In (n', v') r -> 0 <= n' < 2 ^ 64) by (intros; eapply Hb; right; eauto).
+    destruct (n0 =? 2); [apply (IH c _ n v Hin' Hcrit Hb')|].
+    destruct (n0 =? 4); [apply (IH c _ n v Hin' Hcrit Hb')|].
+    apply (IH c st n v Hin' Hcrit Hb').
+Qed.
